@@ -200,6 +200,7 @@ def real_frames(tables, schema):
             else:
                 d[c] = pd.Series([float("nan") if v is None else float(v) for v in vals], dtype="float64")
         out[t] = pd.DataFrame(d)
+        out[t].attrs["kinds"] = dict(kinds)  # declared column kinds (nullable ints become float columns in pandas; polars keeps them Int64)
     return out
 
 
